@@ -62,6 +62,8 @@ type simAdapter struct {
 	inc     int
 	// counters
 	FiredEnq, FiredDeq, FiredAck, Dups, Delays int
+	enqIDs   []string // job ids in the order the adapter stored them (parsed from the bytes)
+	deliveredBad []bool // per delivered corrupted entry: might it still decode?
 	notifies []int // per subscriber: delivered notifications
 	lostRace int
 }
@@ -134,6 +136,12 @@ func (a *simAdapter) enqueue(item any, prio int) bool {
 	e := adEntry{Prio: prio, Arrival: a.arrival, Sub: sub}
 	if isBytes {
 		e.Bytes = append([]byte(nil), b...)
+		var idv struct {
+			ID string `json:"id"`
+		}
+		if json.Unmarshal(b, &idv) == nil {
+			a.enqIDs = append(a.enqIDs, idv.ID)
+		}
 	} else {
 		e.Raw = item
 		e.Bad = 9
@@ -189,6 +197,10 @@ func (a *simAdapter) DequeueWithAckId() (any, bool, string) {
 	id := fmt.Sprintf("ack-%d", a.ackSeq)
 	a.unacked = append(a.unacked, adUnacked{ID: id, E: e, Inc: a.inc})
 	a.log("deq", e.Sub, id, true)
+	if e.Bad != 0 {
+		a.deliveredBad = append(a.deliveredBad, e.Bad == 2 || e.Bad == 5)
+		a.root.rec.probes[pbBadEntry]++
+	}
 	a.root.rec.adDeq(a, e.Sub, id)
 	if e.Raw != nil {
 		return e.Raw, true, id
